@@ -79,8 +79,10 @@ Cases13T == <<MulExt(1, "small", "full"), Arith(1, "full", "small"), BaseSum(3, 
               Coset(1, 2, "small"), Coset(2, 4, "tiny"), Expo(3), Ra(3, 1, 0, "tiny", "full"),
               Reducing(2, "small"), ReducingExt(1, "small")>>
 \* P = 17
-Cases17T == <<Arith(1, "full", "small"), Ra(2, 1, 0, "full", "full"), Pi, Coset(2, 3, "tiny"), Poseidon(4, 2, 2, 1, ALPHA, "small"),
-              MdsG(4, "tiny"), Expo(6), Ra(3, 1, 0, "tiny", "full"), ArithExt(1, "small", "small")>>
+Cases17T == <<Arith(1, "full", "small"), Ra(2, 1, 0, "small", "full"), Ra(1, 2, 1, "small", "small"),
+              [kind |-> "pi", dom |-> "small", cdom |-> "full"], Coset(2, 3, "tiny"),
+              Poseidon(4, 2, 2, 1, ALPHA, "small"), MdsG(4, "tiny"), Expo(6), Ra(3, 1, 0, "tiny", "full"),
+              ArithExt(1, "small", "small")>>
 \* canary case lists (small, so that the mutant is found fast)
 CasesExpo == <<Expo(3)>>
 CasesRa == <<Ra(2, 1, 0, "small", "full")>>
